@@ -31,3 +31,7 @@ def run(chk):
     #  - "no invocation blocks forever": every caller blocked on a synchronous checkpoint is woken when the checkpoint API fails
     from . import batcher
     batcher.check_consumer(chk, "C07")
+    #  - "no spinning": the loops of the batch collection terminate (variants: overflow length, room left in the batch); the ancestor walk of the
+    #    replay tracker terminates (C17.state.under_completed_context.loop.variant); the other loops end on an external event (stop flag, arrival,
+    #    the backend's last page) and stay undecided
+    batcher.check_collect(chk, "C07")
